@@ -8,7 +8,7 @@ import generator.model as model  # noqa: E402
 from generator.plugins.python import utils as pyu  # noqa: E402
 
 BASES = ["URI", "DocumentUri", "integer", "uinteger", "decimal", "string", "boolean", "null", "RegExp"]
-PY_BASE = {"URI": "str", "DocumentUri": "str", "integer": "int", "uinteger": "int", "decimal": "float", "string": "str", "boolean": "bool", "null": "None"}
+PY_BASE = {"RegExp": "str", "URI": "str", "DocumentUri": "str", "integer": "int", "uinteger": "int", "decimal": "float", "string": "str", "boolean": "bool", "null": "None"}
 BASES2 = ["null", "string", "integer"]  # second operand of or / tuple shapes
 BSMALL = [2, 5, 7]  # integer, string, null: base choices of the two-property kernel
 OPT = [None, False, True]
@@ -84,7 +84,7 @@ def py_validator_rule(sel, b1, b2, optional):
     s = pyu._generate_field_validator(p.type, optional)
     want = None
     if t["kind"] == "base":
-        want = {"integer": "validators.integer_validator", "uinteger": "validators.uinteger_validator", "string": "attrs.validators.instance_of(str)", "DocumentUri": "attrs.validators.instance_of(str)", "URI": "attrs.validators.instance_of(str)", "boolean": "attrs.validators.instance_of(bool)", "decimal": "attrs.validators.instance_of(float)"}.get(t["name"])
+        want = {"integer": "validators.integer_validator", "uinteger": "validators.uinteger_validator", "string": "attrs.validators.instance_of(str)", "DocumentUri": "attrs.validators.instance_of(str)", "URI": "attrs.validators.instance_of(str)", "RegExp": "attrs.validators.instance_of(str)", "boolean": "attrs.validators.instance_of(bool)", "decimal": "attrs.validators.instance_of(float)"}.get(t["name"])
     if t["kind"] == "stringLiteral":
         return s == "attrs.field(validator=attrs.validators.in_(['lit']), default='lit')"
     if want is None:
@@ -137,7 +137,7 @@ RULES = {
     "py_type_name_rule": (py_type_name_rule, ["sel", "b1", "b2"], "_generate_type_name follows the documented type mapping"),
     "py_properties_rule": (py_properties_rule, ["o1", "o2", "s1", "s2", "b"], "_generate_properties: ordering, implicit optionality, defaults, names"),
 }
-RANGES = {"sel": NSEL, "s1": 6, "s2": 6, "b1": 8, "b2": 3, "b": 3, "opt": 3, "o1": 3, "o2": 3}  # base index 8 (RegExp) is exercised by C06 only
+RANGES = {"sel": NSEL, "s1": 6, "s2": 6, "b1": 9, "b2": 3, "b": 3, "opt": 3, "o1": 3, "o2": 3}  
 
 
 def rule_lemmas(tier, with_regexp=False):
@@ -163,7 +163,7 @@ def rule_lemmas(tier, with_regexp=False):
                 ps.append((p, "bool"))
             else:
                 ps.append((p, "int"))
-                hi = RANGES[p] + (1 if with_regexp and p == "b1" else 0)
+                hi = RANGES[p]
                 pre.append("0 <= %s < %d" % (p, hi))
         out.append(xh.Lemma(name, ps, ["return G.%s(%s)" % (name, ", ".join(params))], pre=pre, meta={"site": "generator/plugins/python/utils.py: " + what, "kind": "rule", "fn": name}))
     return out
